@@ -230,6 +230,40 @@ fn ladder_cfg(rng: &mut Rng, k: usize) -> BuildCfg {
     cfg
 }
 
+/// foreign packages after an operation of this library (sign / clear): the signature header it
+/// wrote must carry the true header SHA-256; every other digest that is recorded must be right
+fn judge_foreign(bytes: &[u8], operated: bool) -> Result<Vec<(String, String)>, String> {
+    let p = walk_package(bytes)?;
+    let d = recompute_digests(bytes, &p);
+    let mut v = Vec::new();
+    match p.sig.get(bytes, tag::SIG_SHA256) {
+        Some(Ok(Val::Str(s))) => {
+            if lossy(&s) != d.sha256_header {
+                v.push(("header-sha256:foreign".to_string(), format!("signature header records SHA-256 {} but the serialised header hashes to {}", lossy(&s), d.sha256_header)));
+            }
+        }
+        Some(other) => v.push(("header-sha256:bad-entry:foreign".to_string(), format!("RPMSIGTAG_SHA256 is not a string: {other:?}"))),
+        None if operated => v.push(("header-sha256:missing:foreign".to_string(), "after sign / clear the signature header records no header SHA-256".to_string())),
+        None => {}
+    }
+    if let Some(Ok(Val::Str(s))) = p.sig.get(bytes, tag::SIG_SHA1) {
+        if lossy(&s) != d.sha1_header {
+            v.push(("header-sha1:foreign".to_string(), format!("recorded SHA-1 {} != {}", lossy(&s), d.sha1_header)));
+        }
+    }
+    if let Some(Ok(Val::Bin(b))) = p.sig.get(bytes, tag::SIG_MD5) {
+        if b != d.md5_header_payload {
+            v.push(("header-payload-md5:foreign".to_string(), "recorded MD5 differs from MD5(header || payload)".to_string()));
+        }
+    }
+    if let (Some(s), Some(a)) = (p.hdr.get_strs(bytes, tag::PAYLOADDIGEST), p.hdr.get_u32s(bytes, tag::PAYLOADDIGESTALGO)) {
+        if s.len() == 1 && a.first() == Some(&8) && lossy(&s[0]) != d.sha256_payload {
+            v.push(("payload-digest:foreign".to_string(), format!("PAYLOADDIGEST {} but the payload hashes to {}", lossy(&s[0]), d.sha256_payload)));
+        }
+    }
+    Ok(v)
+}
+
 fn run(ctx: &Ctx, rep: &Report) {
     let keys = match load_keys(&ctx.repo_dir) {
         Ok(k) => k,
@@ -238,6 +272,26 @@ fn run(ctx: &Ctx, rep: &Report) {
             return;
         }
     };
+    // the repository's packages after sign / clear by this library
+    {
+        let mut local = BTreeMap::new();
+        for it in asset_items(&ctx.repo_dir, &keys).into_iter().flatten() {
+            rep.eval(1);
+            let operated = it.label.contains("+sign") || it.label.contains("+clear");
+            match guard(|| judge_foreign(&it.bytes, operated)) {
+                Ok(Ok(ms)) => {
+                    rep.nontrivial(hash_bytes(&it.bytes[..it.bytes.len().min(4096)]) ^ it.bytes.len() as u64);
+                    *local.entry(format!("judged.asset{}", if operated { "+operation" } else { "" })).or_insert(0u64) += 1;
+                    for (k, what) in ms {
+                        rep.violation(k, format!("{}: {what}", it.label), json!({"label": it.label}), 0);
+                    }
+                }
+                Ok(Err(e)) => rep.inconclusive(format!("asset item {} does not walk: {e}", it.label)),
+                Err(p) => rep.inconclusive(format!("oracle panicked: {}", p.message)),
+            }
+        }
+        rep.counts(&local);
+    }
     let nl = ladder().len() as u64;
     let n: u64 = nl + ctx.tier.pick(64, 4000);
     let base = ctx.work_dir("build");
